@@ -18,8 +18,7 @@ structure StWorld where
   stores : List (String × Inst) := []
   deriving Inhabited
 
-def alSet {α} (l : List (String × α)) (k : String) (v : α) : List (String × α) :=
-  if l.any (·.1 == k) then l.map (fun p => if p.1 == k then (k, v) else p) else l ++ [(k, v)]
+def alSet {α} (l : List (String × α)) (k : String) (v : α) : List (String × α) := bset l k v
 
 def StWorld.fsOf (w : StWorld) (sid : String) : FS := (w.dir.lookup sid).getD {}
 def StWorld.dbOf (w : StWorld) (sid : String) : Tables := (w.db.lookup sid).getD {}
